@@ -60,6 +60,8 @@ class FakeStdin:
         if not self.closed:
             self.closed = True
             self.sends_at_close = len(self.sends)
+        if getattr(self, "aclose_raises", False):  # the pipe is already gone: closing it fails
+            raise OSError("stdin already closed by the child")
 
 
 class FakeStdout:
@@ -94,6 +96,23 @@ class FakeStdout:
                         info.append({"set": val, "raised": type(ex).__name__})
             if kind == "close_stdin":
                 await self.proc.stdin.aclose()
+            if kind == "reply_init":  # the child answers the client's `initialize` request with this version
+                import json as _json
+
+                rid = None
+                for _ in range(20000):
+                    for b in self.proc.stdin.sends:
+                        try:
+                            d = _json.loads(b.decode("utf-8"))
+                        except Exception:  # noqa
+                            continue
+                        if isinstance(d, dict) and d.get("method") == "initialize":
+                            rid = d.get("id")
+                    if rid is not None:
+                        break
+                    await anyio.sleep(STEP)
+                return (_json.dumps({"jsonrpc": "2.0", "id": rid, "result": {
+                    "protocolVersion": val, "capabilities": {}, "serverInfo": {"name": "verif-fake-child", "version": "1"}}}) + "\n").encode()
             if kind == "sleep":  # the child is busy for `val` scheduling steps before its next output
                 await anyio.sleep(val * STEP)
             if kind == "at":  # output at step `val` after the start of the case, injected by the loop itself
@@ -182,6 +201,12 @@ def parse_line(text: str):
     return r
 
 
+def _key_of(m):
+    """the key under which the legacy per-request API looks a message up: `str(id)` (None for no id)"""
+    i = getattr(m, "id", None)
+    return None if i is None else str(i)
+
+
 def parse_line_uncached(text: str):
     """The library's own verdict on one whole line: ("junk",) | ("single", dump, is_notification)
     | ("batch", [None | (dump, is_notification)])."""
@@ -197,7 +222,7 @@ def parse_line_uncached(text: str):
         for it in data:
             try:
                 m = parse_message(it)
-                items.append((dump_msg(m), getattr(m, "id", None) is None))
+                items.append((dump_msg(m), getattr(m, "id", None) is None, _key_of(m)))
             except Exception:  # noqa
                 items.append(None)
         return ("batch", items)
@@ -205,7 +230,7 @@ def parse_line_uncached(text: str):
         m = parse_message(data)
     except Exception:  # noqa
         return ("junk",)
-    return ("single", dump_msg(m), getattr(m, "id", None) is None)
+    return ("single", dump_msg(m), getattr(m, "id", None) is None, _key_of(m))
 
 
 def _decode_writes(sends):
@@ -235,6 +260,8 @@ def _script_of(events):
             script.append(("sleep", e["sleep"]))
         elif "close_stdin" in e:  # the client's write side goes away while the child keeps talking
             script.append(("close_stdin", None))
+        elif "reply_init" in e:
+            script.append(("reply_init", e["reply_init"]))
         else:
             script.append(("set", e["v"]))
     return script
@@ -247,6 +274,12 @@ def _open_client(mod, api):
     params = StdioParameters(command="verif-fake-child", args=[])
     if api == "function":  # stdio_client(): only the two streams are handed out
         cm = mod.stdio_client(params)
+
+        async def get(entered):
+            return None, entered[0], entered[1]
+        return cm, get
+    if api == "with_initialize":  # stdio_client_with_initialize(): a real handshake, the client object stays hidden
+        cm = mod.stdio_client_with_initialize(params, timeout=5.0)
 
         async def get(entered):
             return None, entered[0], entered[1]
@@ -412,9 +445,19 @@ async def _writer_case(mod, holder, case, build):
         async with cm as entered:
             client, _read, write = await get(entered)
             proc.client = client
+            proc.stdin.aclose_raises = bool(case.get("aclose_raises"))
             await _send_items(client, write, case["items"], build)
             await anyio.sleep(1.0)
             before_close = {"closed": proc.stdin.closed, "n": len(proc.stdin.sends)}
+            late = None
+            if case.get("late_send_json") and client is not None:
+                # the writer task is gone (its end of the outgoing stream closed): the legacy send_json must not raise
+                client._outgoing_recv.close()
+                try:
+                    await client.send_json(build(case["late_send_json"]))
+                    late = "returned"
+                except Exception as ex:  # noqa
+                    late = "raised:" + type(ex).__name__
             if case.get("close", True):
                 await write.aclose()
                 await anyio.sleep(1.0)
@@ -422,7 +465,7 @@ async def _writer_case(mod, holder, case, build):
             sends = list(proc.stdin.sends)
     except Exception as ex:  # noqa
         return {"harness_error": type(ex).__name__}
-    return {"bytes": b"".join(sends).hex(), "sends": len(sends), "before_close": before_close, "after_close": after}
+    return {"bytes": b"".join(sends).hex(), "sends": len(sends), "before_close": before_close, "after_close": after, "late": late}
 
 
 async def _duplex_case(mod, holder, case, build):
@@ -521,6 +564,146 @@ def run_reader_cases(cases):
         for c in cases:
             out.append(await _reader_case(mod, holder, c))
         return out
+
+    saved = _patched(mod, holder)
+    try:
+        return vloop.run(main)
+    finally:
+        _restore(saved)
+
+
+def run_guard_cases(cases):
+    """entry guards of StdioClient / StdioTransport: what raises before / after the object was entered"""
+    import types
+
+    mod = stdio_module()
+    holder = {}
+    from chuk_mcp.transports.stdio.parameters import StdioParameters
+
+    def outcome(f):
+        try:
+            f()
+            return "ok"
+        except (ValueError, RuntimeError) as ex:
+            return type(ex).__name__
+        except Exception as ex:  # noqa
+            return "other:" + type(ex).__name__
+
+    async def one(case):
+        import anyio
+
+        if case["guard"] == "ctor":
+            server = types.SimpleNamespace(command="verif-fake-child" if case["command"] else case.get("falsy", ""),
+                                           args=(case.get("seq", ["a"]) if case["args"] else case.get("nonseq", "notalist")), env=None)
+            return {"guard": outcome(lambda: mod.StdioClient(server))}
+        proc = FakeProcess([])
+        never = anyio.Event()
+
+        async def _w():
+            await never.wait()
+        proc.stdout._next = _w  # type: ignore[method-assign]
+        holder["proc"] = proc
+        params = StdioParameters(command="verif-fake-child", args=[])
+        if case["guard"] == "streams":
+            obj = mod.StdioClient(params)
+            for op in case["history"]:
+                if op == "enter":
+                    await obj.__aenter__()
+                else:
+                    await obj.__aexit__(None, None, None)
+            res = {"guard": outcome(obj.get_streams)}
+            try:
+                await obj.send_json({"jsonrpc": "2.0", "method": "x"})
+                res["send_json"] = "ok"
+            except RuntimeError:
+                res["send_json"] = "RuntimeError"
+            except Exception as ex:  # noqa
+                res["send_json"] = "other:" + type(ex).__name__
+            if case["history"] and case["history"][-1] == "enter":
+                await obj.__aexit__(None, None, None)
+            return res
+        tmod = __import__("chuk_mcp.transports.stdio.transport", fromlist=["StdioTransport"])
+        t = tmod.StdioTransport(params)
+        exits = []
+        for op in case["history"]:
+            if op == "enter":
+                await t.__aenter__()
+            else:
+                exits.append(await t.__aexit__(None, None, None))
+        try:
+            await t.get_streams()
+            g = "ok"
+        except RuntimeError:
+            g = "RuntimeError"
+        except Exception as ex:  # noqa
+            g = "other:" + type(ex).__name__
+        sp = outcome(lambda: t.set_protocol_version("2025-06-18"))
+        if case["history"] and case["history"][-1] == "enter":
+            await t.__aexit__(None, None, None)
+        return {"guard": g, "exit_returns": exits, "set_version": sp}
+
+    async def main():
+        return [await one(c) for c in cases]
+
+    saved = _patched(mod, holder)
+    try:
+        return vloop.run(main)
+    finally:
+        _restore(saved)
+
+
+def build_exc(spec):
+    import asyncio
+
+    k = spec["kind"]
+    if k == "cancelled":
+        return asyncio.CancelledError()
+    if k == "group":
+        members = [asyncio.CancelledError() if m.get("cancelled") else Exception(m.get("msg", "")) for m in spec["members"]]
+        return BaseExceptionGroup(spec.get("msg", "group"), members)  # noqa: F821 (builtin since 3.11)
+    cls = {"Exception": Exception, "RuntimeError": RuntimeError, "ValueError": ValueError, "TypeError": TypeError,
+           "OSError": OSError}[spec.get("cls", "Exception")]
+    return cls(spec.get("msg", ""))
+
+
+async def _exit_case(mod, holder, case):
+    """the body of `async with stdio_client(...)` / `stdio_client_with_initialize(...)` raises; does it get out?"""
+    import anyio
+
+    proc = FakeProcess([("reply_init", case.get("version", "2025-03-26"))] if case["entry"] == "init" else [])
+    never = anyio.Event()
+    inner_next = proc.stdout._next
+
+    async def _next_then_wait():
+        c = await inner_next()
+        if c is None:
+            await never.wait()
+        return c
+
+    proc.stdout._next = _next_then_wait  # type: ignore[method-assign]
+    holder["proc"] = proc
+    entered = False
+    try:
+        cm, _ = _open_client(mod, "with_initialize" if case["entry"] == "init" else "function")
+        async with cm:
+            entered = True
+            raise build_exc(case["exc"])
+    except BaseException as ex:  # noqa
+        if not entered:
+            return {"harness_error": type(ex).__name__}
+        return {"propagated": True, "type": type(ex).__name__, "terminated": proc.terminated}
+    return {"propagated": False, "type": None, "terminated": proc.terminated}
+
+
+def run_exit_cases(cases):
+    from . import stdio_cov
+
+    stdio_cov.start()
+    mod = stdio_module()
+    holder = {}
+
+    async def main():
+        return [await _exit_case(mod, holder, c) for c in cases]
 
     saved = _patched(mod, holder)
     try:
